@@ -411,7 +411,9 @@ fn write_long_bracket(value: &[u8]) -> Option<String> {
     let mut searched = value.to_vec();
     searched.push(b']');
 
-    let mut i: usize = value.ends_with(b"]").into();
+    // stock Lua 5.1 rejects `[[` inside a `[[...]]` string ("nesting of [[...]] is
+    // deprecated"): use at least one `=` for such values too
+    let mut i: usize = (value.ends_with(b"]") || value.find(b"[[").is_some()).into();
     let mut equals = b"=".repeat(i);
     equals.insert(0, b']');
     equals.push(b']');
